@@ -2,7 +2,7 @@
 EXTENDS ConsensusQueue, Json
 CONSTANTS Family, EmitAt, MaxOps
 VARIABLE hist
-Shares5 == <<5, 3, 2, 1, 0>>
+Shares5 == <<5000000, 3000001, 1000002, 1000000, 0>>   \* raw shares of the driver's world (see harness/drivers/cqueue)
 H(a, r) == hist' = Append(hist, [act |-> a, args |-> r])
 Ids == DOMAIN msgs \cup {nextId}         \* existing ids plus one that does not exist
 SlcIds == {i \in DOMAIN msgs : msgs[i].kind = "slc"} \cup {nextId}
@@ -26,9 +26,12 @@ GSetErr == \E v \in Vals, id \in DOMAIN msgs : ~msgs[id].pad /\ ~msgs[id].err /\
 GReReg == \E v \in Vals : keyver[v] <= 2 /\ ReRegister(v) /\ H("ReRegister", [v |-> v])
 GReassign == (\E id \in DOMAIN msgs : msgs[id].kind = "slc") /\ (\A id \in DOMAIN msgs : msgs[id].asg < 2) /\ Reassign /\ H("Reassign", [x |-> 0])
 GEndBlock == EndBlock /\ H("EndBlock", [x |-> 0])
+\* transition cover: different pre-states (who supplied evidence) lead to the same post-state (message pruned, nobody
+\* jailed), which a state cover merges; emit one history per EndBlock TRANSITION instead
+GEndBlockT == EndBlock /\ H("EndBlock", [x |-> 0]) /\ (Len(hist) >= 2 => PrintT(<<"HIST", ToJson(hist')>>))
 GAdvance == \E dh \in {1, 49, 301, 349} : Advance(dh) /\ H("Advance", [dh |-> dh])
 GNext == CASE Family = "ev"  -> GPut \/ GEvidence \/ GSetErr \/ GEndBlock \/ GAdvance
-           [] Family = "prune" -> GPut \/ GEvidence \/ GEndBlock \/ (height = 1 /\ Advance(349) /\ H("Advance", [dh |-> 349]))
+           [] Family = "prune" -> GPut \/ GEvidence \/ GEndBlockT \/ (height = 1 /\ Advance(349) /\ H("Advance", [dh |-> 349]))
            [] Family = "sig" -> GPut \/ GSign \/ GEstimate \/ GReReg \/ GReassign \/ GEndBlock
            [] OTHER -> GPut \/ GSign \/ GEstimate \/ GEvidence \/ GSetPAD \/ GSetErr \/ GReReg \/ GReassign \/ GEndBlock \/ GAdvance
 GInit == Init /\ hist = <<>>
